@@ -17,8 +17,8 @@ RULE = ("query texts of four kinds: (a) random text of length 0-80 over the toke
         "with 1-3 random edits (delete / duplicate / swap / insert a character); (c) targeted shapes (blank and "
         "whitespace-only arguments, stray and doubled separators, unbalanced brackets and quotes, trailing commas); "
         "(d) single-fault programs with a known error class (unknown variable/function, too few/many arguments, "
-        "wrong top-level argument type for every typed parameter of every built-in, unknown bucket, curated "
-        "malformed shapes). Each is run through aw_query.query with an activation budget; non-trivial = the text is "
+        "wrong top-level argument type for every typed parameter of every built-in, unknown bucket - also one that existed "
+        "and was queried successfully before it was deleted -, curated malformed shapes). Each is run through aw_query.query with an activation budget; non-trivial = the text is "
         "rejected or was corrupted; signature = (kind, outcome class, innermost raising function)")
 ASSUMPTIONS = ["an exception whose traceback runs the body of a built-in is outside the statement (counted, not judged)",
                "a malformed text that the interpreter accepts and evaluates satisfies 'yields a value' (counted as lenient_accept)",
@@ -159,6 +159,10 @@ def gen_case(rng, ctx):
                 text = text[:i] + rng.choice(ALPHABET) + text[i:]
             edits.append(e)
         return dict(kind="corrupted", text=text, edits=edits)
+    if r < 0.76:
+        # a bucket that existed when an earlier query named it and has been deleted since is an unknown bucket
+        return dict(kind="deleted-bucket", text=f'RETURN = {rng.choice(["query_bucket", "query_bucket_eventcount"])}("temp-bucket-{rng.randrange(3)}")',
+                    bucket=f"temp-bucket-{rng.randrange(3)}", fault="deleted-bucket", expect="QueryFunctionException")
     if r < 0.83:
         t = rng.choice(TARGETED)
         if rng.random() < 0.3:
@@ -173,6 +177,19 @@ def run_case(case, ctx):
     from aw_query.exceptions import QueryException
     text = case["text"]
     ds = _S["st"].ds
+    if case["kind"] == "deleted-bucket":
+        # the bucket named in the text exists, is queried successfully (both built-ins), and is then deleted
+        name = text.split('"')[1]
+        if name not in ds.buckets():
+            ds.create_bucket(name, type="t", client="c", hostname="host")
+        start0, end0 = mk_dt(_S["lo"]), mk_dt(_S["hi"])
+        for fn in ("query_bucket", "query_bucket_eventcount"):
+            try:
+                aw_query.query("q", f'RETURN = {fn}("{name}")', start0, end0, ds)
+            except Exception as ex:  # noqa: BLE001
+                return [("query-of-existing-bucket-failed", f"{fn}({name!r}): {type(ex).__name__}: {ex}")], dict(sig=("deleted-bucket", "setup"), nontrivial=True)
+        ds.delete_bucket(name)
+        ctx.count("queries_on_deleted_buckets")
     counter = _S["counter"]
     start, end = mk_dt(_S["lo"]), mk_dt(_S["hi"])
     budget = 5000 + 3000 * len(text)
@@ -216,7 +233,7 @@ def run_case(case, ctx):
                           f"{type(ex).__name__}: {ex} raised in {where} for text {text!r:.300}"))
     ctx.count("texts_run")
     ctx.count("activations_counted", used)
-    if case["kind"] == "fault":
+    if case["kind"] in ("fault", "deleted-bucket"):
         ctx.count("class_mapping_checked")
         if outcome != case["expect"] and not viols:
             viols.append((f"wrong-error-class:{case['fault']}", f"{case['fault']}: expected {case['expect']}, got {outcome} for {text!r:.300}"))
